@@ -1,6 +1,6 @@
 #!/bin/bash
 # run_all.sh [tier]: every claimed check once on the current tree; prints rc per property.
-cd /verif
+cd "$(dirname "$0")/.."
 tier=${1:-quick}
 ids=$(python3 -c "import json; print(' '.join(c['property_id'] for c in json.load(open('MANIFEST.json'))['checks']))")
 fail=0
